@@ -317,6 +317,14 @@ fn copy_case(g: &mut Gen, ctx: &mut Ctx) -> CaseResult {
     ensure!(same(&p, &b.protected), "ProtectedHeader::clone_from yields {:?}, source is {:?}", p, b.protected);
     let t = sig_structure_data(SignatureContext::CoseSign1, p, None, &aad, b"p");
     check_in("Sig_structure of a clone_from copy", &t, 1, &b.protected)?;
+    // a built header (nothing retained) copied over a decoded one: nothing retained afterwards either
+    let built = ProtectedHeader { original_data: None, header: if g.bool() { Header::default() } else { b.protected.header.clone() } };
+    let mut p = a.protected.clone();
+    p.clone_from(&built);
+    ensure!(same(&p, &built), "ProtectedHeader::clone_from(built source) yields {:?}, source is {:?}", p, built);
+    let mut p = built.clone();
+    p.clone_from(&a.protected);
+    ensure!(same(&p, &a.protected), "ProtectedHeader::clone_from(decoded source) over a built value yields {:?}, source is {:?}", p, a.protected);
     // the whole message
     let mut m = a.clone();
     m.clone_from(&b);
@@ -411,9 +419,103 @@ fn builder_case(g: &mut Gen, ctx: &mut Ctx) -> CaseResult {
     Ok(())
 }
 
+/// The application edits the parsed view of a decoded protected header (public field) and leaves the
+/// retained bytes in place: those bytes — zero-length string included — still are what every
+/// structure, closure and re-encoding carries.
+fn edited_view_case(g: &mut Gen, ctx: &mut Ctx) -> CaseResult {
+    let kind = *g.pick(&[Kind::Sign1, Kind::Mac0, Kind::Encrypt0, Kind::Sign]);
+    let item = gen_msg(g, kind, &mut Faults::none(), 0);
+    let (bytes, enc) = styled(&item, g, StyleOpts::ALL);
+    let mut mc = MCtx::default();
+    let m = match m_msg(kind, &enc, &mut mc) {
+        Ok(m) => m,
+        Err(_) => return Ok(()),
+    };
+    let w = m.protected.wire.clone().unwrap_or_default();
+    let aad = g.small_bytes();
+    let how = g.below(4);
+    let edit = |h: &mut Header, g: &mut Gen| match how {
+        0 => h.alg = Some(coset::Algorithm::Assigned(coset::iana::Algorithm::ES256)),
+        1 => h.key_id = g.nonempty_bytes(),
+        2 => h.rest.push((coset::Label::Int(70000), coset::cbor::value::Value::Null)),
+        _ => *h = Header::default(),
+    };
+    ctx.classf(format!("edited-view:{}:{}", kind.name(), if w.is_empty() { "zero-length-retained" } else { "retained" }));
+    ctx.nontrivial(hash_str(&format!("ev|{}|{}", how, hex_trunc(&bytes, 300))));
+    ctx.sample_with(|| format!("{} decoded from {}, parsed protected view edited ({}), retained bytes {}", kind.name(), hex_trunc(&bytes, 40), how, hex_trunc(&w, 16)));
+    let slot0 = |out: &[u8]| -> Result<Vec<u8>, String> { elem(out, 0) };
+    match kind {
+        Kind::Sign1 => {
+            let mut v = CoseSign1::from_slice(&bytes).map_err(|e| format!("valid COSE_Sign1 rejected: {:?}", e))?;
+            edit(&mut v.protected.header, g);
+            if v.payload.is_some() {
+                check_in("edited view: CoseSign1::tbs_data", &v.tbs_data(&aad), 1, &v.protected)?;
+                let mut seen = vec![];
+                let _: Result<(), ()> = v.verify_signature(&aad, |_, d| {
+                    seen = d.to_vec();
+                    Ok(())
+                });
+                check_in("edited view: verify_signature closure", &seen, 1, &v.protected)?;
+            } else {
+                check_in("edited view: CoseSign1::tbs_detached_data", &v.tbs_detached_data(b"d", &aad), 1, &v.protected)?;
+            }
+            ensure!(wire(&v.protected)? == &w, "retained bytes changed by editing the view");
+            let out = v.to_vec().map_err(|e| format!("{:?}", e))?;
+            ensure!(slot0(&out)? == w, "edited view: re-encoding carries {} in the protected slot, received {}", hex_trunc(&slot0(&out)?, 60), hex_trunc(&w, 60));
+        }
+        Kind::Sign => {
+            let mut v = match CoseSign::from_slice(&bytes) { Ok(v) => v, Err(e) => { return if mc.unspecified { Ok(()) } else { Err(format!("valid COSE_Sign rejected: {:?}", e)) } } };
+            edit(&mut v.protected.header, g);
+            for i in 0..v.signatures.len() {
+                edit(&mut v.signatures[i].protected.header, g);
+                let sg = v.signatures[i].clone();
+                let t = if v.payload.is_some() { v.tbs_data(&aad, &sg) } else { v.tbs_detached_data(b"d", &aad, &sg) };
+                check_in("edited view: CoseSign tbs (body)", &t, 1, &v.protected)?;
+                check_in("edited view: CoseSign tbs (signer)", &t, 2, &sg.protected)?;
+            }
+            let out = v.to_vec().map_err(|e| format!("{:?}", e))?;
+            ensure!(slot0(&out)? == w, "edited view: re-encoding carries {} in the protected slot, received {}", hex_trunc(&slot0(&out)?, 60), hex_trunc(&w, 60));
+        }
+        Kind::Mac0 => {
+            let mut v = CoseMac0::from_slice(&bytes).map_err(|e| format!("valid COSE_Mac0 rejected: {:?}", e))?;
+            edit(&mut v.protected.header, g);
+            if v.payload.is_some() {
+                let mut seen = vec![];
+                let _: Result<(), ()> = v.verify_tag(&aad, |_, d| {
+                    seen = d.to_vec();
+                    Ok(())
+                });
+                check_in("edited view: verify_tag closure", &seen, 1, &v.protected)?;
+            }
+            check_in("edited view: mac_structure_data", &mac_structure_data(MacContext::CoseMac0, v.protected.clone(), &aad, b"p"), 1, &v.protected)?;
+            let out = v.to_vec().map_err(|e| format!("{:?}", e))?;
+            ensure!(slot0(&out)? == w, "edited view: re-encoding carries {} in the protected slot, received {}", hex_trunc(&slot0(&out)?, 60), hex_trunc(&w, 60));
+        }
+        _ => {
+            let mut v = CoseEncrypt0::from_slice(&bytes).map_err(|e| format!("valid COSE_Encrypt0 rejected: {:?}", e))?;
+            edit(&mut v.protected.header, g);
+            if v.ciphertext.is_some() {
+                let mut seen = vec![];
+                let _: Result<Vec<u8>, ()> = v.decrypt(&aad, |_, a| {
+                    seen = a.to_vec();
+                    Ok(vec![])
+                });
+                check_in("edited view: decrypt closure", &seen, 1, &v.protected)?;
+            }
+            check_in("edited view: enc_structure_data", &enc_structure_data(EncryptionContext::CoseEncrypt0, v.protected.clone(), &aad), 1, &v.protected)?;
+            let out = v.to_vec().map_err(|e| format!("{:?}", e))?;
+            ensure!(slot0(&out)? == w, "edited view: re-encoding carries {} in the protected slot, received {}", hex_trunc(&slot0(&out)?, 60), hex_trunc(&w, 60));
+        }
+    }
+    Ok(())
+}
+
 fn case(g: &mut Gen, ctx: &mut Ctx) -> CaseResult {
     if g.ratio(1, 12) {
         return copy_case(g, ctx);
+    }
+    if g.ratio(1, 10) {
+        return edited_view_case(g, ctx);
     }
     if g.ratio(1, 10) {
         return builder_case(g, ctx);
@@ -432,7 +534,7 @@ pub fn property() -> Property {
         title: "Protected-header bytes are kept and reused bit-for-bit, never re-encoded",
         rule: "valid messages of all eight structures with nesting <= 3 (signers, recipients, counter-signatures in protected and unprotected headers) and KDF contexts / SuppPubInfo, protected headers as h'', wrapped empty map or wrapped header map, \
                everything encoded in two independently drawn styles (head widths, indefinite lengths for maps, arrays, strings and the outer byte string itself, bignum integers, key order as generated); \
-               oracle: retained bytes == wire bytes at every position; re-encoding carries the same bytes in every protected slot (strict reader); element 1 (and 2 for signers) of every to-be-signed / MACed / additional-data structure and closure argument == wire bytes; parsed views equal across styles; Clone::clone / clone_from copies of decoded values carry the source's bytes; decoded signers / recipients / counter-signatures passed through the builders' add_* helpers keep their bytes in the built value and its encoding; \
+               oracle: retained bytes == wire bytes at every position; re-encoding carries the same bytes in every protected slot (strict reader); element 1 (and 2 for signers) of every to-be-signed / MACed / additional-data structure and closure argument == wire bytes; parsed views equal across styles; the retained bytes stay in force after the application edits the parsed view; Clone::clone / clone_from copies of decoded values carry the source's bytes; decoded signers / recipients / counter-signatures passed through the builders' add_* helpers keep their bytes in the built value and its encoding; \
                non-trivial = top-level protected bytes differ from the crate's own encoding of the parsed header, or nested protected positions exist; distinct by bytes",
         assumptions: &["positions: body, signers, recipients (depth <= 3), counter-signatures (recursively), SuppPubInfo"],
         exhaustive_domains: &[],
